@@ -398,6 +398,48 @@ func fanOut(r *rand.Rand, c *EngCase) {
 	c.Query.NS, c.Query.Obj, c.Query.Rel = ns, obj, perm
 }
 
+// exclusionFan is a fixed shape for the depth/width grid: `Doc.view = viewers && !parents.traverse(banned)`,
+// an object with 2-6 parents, the subject a viewer and banned on the parent that is LAST in storage order
+// (three times in four; else on none): whatever a limit cuts, the subject is not allowed when a parent bans it.
+func exclusionFan(r *rand.Rand, c *EngCase) {
+	user := ast.RelationType{Namespace: "User"}
+	c.NSs = []*namespace.Namespace{
+		{Name: "User"},
+		{Name: "Folder", Relations: []ast.Relation{{Name: "banned", Types: []ast.RelationType{user}}}},
+		{Name: "Doc", Relations: []ast.Relation{
+			{Name: "viewers", Types: []ast.RelationType{user}},
+			{Name: "parents", Types: []ast.RelationType{{Namespace: "Folder"}}},
+			{Name: "view", SubjectSetRewrite: &ast.SubjectSetRewrite{Operation: ast.OperatorAnd, Children: ast.Children{
+				&ast.ComputedSubjectSet{Relation: "viewers"},
+				&ast.InvertResult{Child: &ast.TupleToSubjectSet{Relation: "parents", ComputedSubjectSetRelation: "banned"}}}}},
+		}},
+	}
+	const obj, base = 700, 710
+	sub := Sub{ID: 7}
+	c.Tuples = []Tup{{NS: "Doc", Obj: obj, Rel: "viewers", Sub: sub}}
+	n := 2 + r.Intn(5)
+	for k := 0; k < n; k++ {
+		c.Tuples = append(c.Tuples, Tup{NS: "Doc", Obj: obj, Rel: "parents", Sub: Sub{IsSet: true, NS: "Folder", Obj: base + k, Rel: ""}})
+	}
+	c.Tuples = append(c.Tuples, Tup{NS: "Folder", Obj: base, Rel: "banned", Sub: Sub{ID: 8}})
+	if r.Intn(4) != 0 {
+		c.BoundaryMember = func(stored []Tup) *Tup {
+			var ps []Sub
+			for _, t := range stored {
+				if t.NS == "Doc" && t.Obj == obj && t.Rel == "parents" && t.Sub.IsSet {
+					ps = append(ps, t.Sub)
+				}
+			}
+			if len(ps) == 0 {
+				return nil
+			}
+			return &Tup{NS: "Folder", Obj: ps[len(ps)-1].Obj, Rel: "banned", Sub: sub}
+		}
+	}
+	c.Query = Tup{NS: "Doc", Obj: obj, Rel: "view", Sub: sub}
+	c.Strict = false
+}
+
 // widen gives the case a very wide node, so that the internal page loops are crossed:
 // more than 1000 subject sets on the queried object#relation (the traverser fetches
 // subject sets in pages of 1000) or more than 100 parents on a traversed relation (the
@@ -512,8 +554,13 @@ func genEngCase(r *rand.Rand, p EngProfile) *EngCase {
 	c.Query = genQuery(r, c.NSs, c.Tuples)
 	c.Strict = r.Intn(3) == 0
 	defer func() {
-		if p.DepthGrid && r.Intn(3) == 0 {
-			fanOut(r, c)
+		if p.DepthGrid {
+			switch r.Intn(6) {
+			case 0, 1:
+				fanOut(r, c)
+			case 2:
+				exclusionFan(r, c)
+			}
 		}
 		if p.Wide {
 			if c.GDepth < 4 {
